@@ -327,3 +327,218 @@ func verifH_StopStates() {
 	verifAssert(!idleWait, "C10.graceful-stop-returns-once-in-flight-rpcs-finished")
 	_ = wrapperspb.BytesValue{}
 }
+
+// ---------------------------------------------------------------------------
+// forward-tunnel entry points and the thread-safe carrier wrappers
+
+type vFwdClientStream struct { // grpc.BidiStreamingClient[ClientToServer, ServerToClient] (network client side of a forward tunnel)
+	ctx        context.Context
+	hdr        metadata.MD
+	hdrErr     error
+	hangup     chan struct{}
+	closeSends int
+	sent       []*tunnelpb.ClientToServer
+	wrapper    *threadSafeOpenTunnelClient
+	sendLocked []bool
+	recvLocked []bool
+	script     []*tunnelpb.ServerToClient
+	pos        int
+}
+
+func (s *vFwdClientStream) Header() (metadata.MD, error) { return s.hdr, s.hdrErr }
+func (s *vFwdClientStream) Trailer() metadata.MD         { return nil }
+func (s *vFwdClientStream) CloseSend() error {
+	s.closeSends++
+	if s.wrapper != nil {
+		s.sendLocked = append(s.sendLocked, verifMutexHeld(&s.wrapper.sendMu))
+	}
+	return nil
+}
+func (s *vFwdClientStream) Context() context.Context { return s.ctx }
+func (s *vFwdClientStream) SendMsg(m any) error      { return s.Send(m.(*tunnelpb.ClientToServer)) }
+func (s *vFwdClientStream) RecvMsg(m any) error      { return errors.New("not used") }
+func (s *vFwdClientStream) Send(m *tunnelpb.ClientToServer) error {
+	if s.wrapper != nil {
+		s.sendLocked = append(s.sendLocked, verifMutexHeld(&s.wrapper.sendMu))
+	}
+	s.sent = append(s.sent, m)
+	return nil
+}
+func (s *vFwdClientStream) Recv() (*tunnelpb.ServerToClient, error) {
+	if s.wrapper != nil {
+		s.recvLocked = append(s.recvLocked, verifMutexHeld(&s.wrapper.recvMu))
+	}
+	if s.pos < len(s.script) {
+		s.pos++
+		return s.script[s.pos-1], nil
+	}
+	<-s.hangup
+	return nil, io.EOF
+}
+
+type vFwdStub struct {
+	tunnelpb.TunnelServiceClient
+	stream  *vFwdClientStream
+	openErr error
+	gotMD   metadata.MD
+}
+
+func (s *vFwdStub) OpenTunnel(ctx context.Context, opts ...grpc.CallOption) (grpc.BidiStreamingClient[tunnelpb.ClientToServer, tunnelpb.ServerToClient], error) {
+	s.gotMD, _ = metadata.FromOutgoingContext(ctx)
+	if s.openErr != nil {
+		return nil, s.openErr
+	}
+	s.stream.ctx = ctx
+	return s.stream, nil
+}
+
+type vFwdServerStream struct { // grpc.BidiStreamingServer[ClientToServer, ServerToClient] (network server side of a forward tunnel)
+	ctx    context.Context
+	hdrs   []metadata.MD
+	sent   []*tunnelpb.ServerToClient
+	script []*tunnelpb.ClientToServer
+	pos    int
+}
+
+func (s *vFwdServerStream) Context() context.Context    { return s.ctx }
+func (s *vFwdServerStream) SetHeader(metadata.MD) error { return nil }
+func (s *vFwdServerStream) SendHeader(md metadata.MD) error {
+	s.hdrs = append(s.hdrs, md)
+	return nil
+}
+func (s *vFwdServerStream) SetTrailer(metadata.MD) {}
+func (s *vFwdServerStream) SendMsg(m any) error     { return s.Send(m.(*tunnelpb.ServerToClient)) }
+func (s *vFwdServerStream) RecvMsg(m any) error     { return errors.New("not used") }
+func (s *vFwdServerStream) Send(m *tunnelpb.ServerToClient) error {
+	s.sent = append(s.sent, m)
+	return nil
+}
+func (s *vFwdServerStream) Recv() (*tunnelpb.ClientToServer, error) {
+	if s.pos < len(s.script) {
+		s.pos++
+		return s.script[s.pos-1], nil
+	}
+	verifDrain()
+	return nil, io.EOF
+}
+
+// S-NEGCFG (C04 C11 C13 C15 C17): the forward-tunnel opener (PendingChannel.Start)
+// and acceptor (openTunnel): negotiate headers in both directions for every
+// shape of the peer's header (absent / "on" / other / several values), the
+// options, Close() ending the carrier, and the thread-safe wrappers holding
+// their mutex around every carrier operation.
+func verifH_ForwardEntry() {
+	hdrShape := verifChoice("peerHeader", 4)
+	var peerHdr metadata.MD
+	switch hdrShape {
+	case 1:
+		peerHdr = metadata.MD{grpctunnelNegotiateKey: {grpctunnelNegotiateVal}}
+	case 2:
+		peerHdr = metadata.MD{grpctunnelNegotiateKey: {"off"}}
+	case 3:
+		peerHdr = metadata.MD{grpctunnelNegotiateKey: {"nope", grpctunnelNegotiateVal}}
+	}
+	wantNegotiate := hdrShape == 1
+	disable := verifBool("disableFlowControl")
+	if verifBool("clientSide") {
+		// ---- PendingChannel.Start
+		str := &vFwdClientStream{hdr: peerHdr, hangup: make(chan struct{})}
+		stub := &vFwdStub{stream: str}
+		if wantNegotiate {
+			revs := []tunnelpb.ProtocolRevision{0, 1}
+			str.script = []*tunnelpb.ServerToClient{{StreamId: -1, Frame: &tunnelpb.ServerToClient_Settings{
+				Settings: &tunnelpb.Settings{InitialWindowSize: initialWindowSize, SupportedProtocolRevisions: revs}}}}
+		}
+		var opts []TunnelOption
+		if disable {
+			opts = append(opts, WithDisableFlowControl())
+		}
+		ctx := metadata.NewOutgoingContext(context.Background(), metadata.MD{"who": {"me"}})
+		tc, err := NewChannel(stub, opts...).Start(ctx)
+		verifAssert(err == nil && tc != nil, "C11.start-succeeds")
+		verifAssert(len(stub.gotMD[grpctunnelNegotiateKey]) == 1 && stub.gotMD[grpctunnelNegotiateKey][0] == grpctunnelNegotiateVal, "C11.fwd-opener-advertises-negotiation")
+		verifAssert(len(stub.gotMD["who"]) == 1, "C17.fwd-opening-metadata-kept")
+		c := tc.(*tunnelChannel)
+		verifAssert(c.serverSendsSettings == wantNegotiate, "C11.fwd-peer-negotiates-iff-first-header-value-is-on")
+		want := tunnelpb.ProtocolRevision_REVISION_ZERO
+		if wantNegotiate && !disable {
+			want = tunnelpb.ProtocolRevision_REVISION_ONE
+		}
+		verifAssert(c.useRevision == want, "C11.fwd-flow-control-iff-both-negotiate-and-not-disabled")
+		verifAssert(len(c.tunnelMetadata["who"]) == 1, "C17.fwd-channel-records-opening-metadata")
+		w, isWrapped := c.stream.(*threadSafeOpenTunnelClient)
+		verifAssert(isWrapped, "C15.fwd-carrier-is-wrapped")
+		if isWrapped {
+			str.wrapper = w
+			st, err := c.newStream(context.Background(), true, true, "svc/m")
+			verifAssert(err == nil, "C08.fwd-rpc-starts")
+			if err == nil {
+				_ = st.CloseSend()
+			}
+			tc.Close()
+			close(str.hangup)
+			verifDrain()
+			verifAssert(str.closeSends >= 1, "C04.close-of-a-forward-channel-ends-the-carrier")
+			for _, l := range str.sendLocked {
+				verifAssert(l, "C15.every-carrier-send-under-the-send-mutex")
+			}
+			for _, l := range str.recvLocked {
+				verifAssert(l, "C15.every-carrier-recv-under-the-recv-mutex")
+			}
+			verifAssert(len(str.sendLocked) >= 3, "C15.wrapper-sends-observed")
+			verifAssert(!verifMutexHeld(&w.sendMu) && !verifMutexHeld(&w.recvMu), "C15.wrapper-mutexes-released")
+			verifAssert(verifLiveGoroutines() == 0, "C14.forward-channel-no-goroutine-left")
+		}
+		return
+	}
+	// ---- openTunnel (the network server accepting a forward tunnel)
+	ctx := context.Background()
+	if peerHdr != nil {
+		ctx = metadata.NewIncomingContext(ctx, peerHdr)
+	}
+	str := &vFwdServerStream{ctx: ctx}
+	h := NewTunnelServiceHandler(TunnelServiceHandlerOptions{DisableFlowControl: disable})
+	hl := &vHandlerLog{}
+	if verifBool("servicesRegistered") {
+		h.handlers = vHandlers(hl)
+		str.script = []*tunnelpb.ClientToServer{{StreamId: 1, Frame: &tunnelpb.ClientToServer_NewStream{NewStream: &tunnelpb.NewStream{MethodName: "a/s", ProtocolRevision: tunnelpb.ProtocolRevision_REVISION_ZERO}}}}
+	}
+	if verifBool("shuttingDown") {
+		h.InitiateShutdown()
+	}
+	err := h.openTunnel(str)
+	verifDrain()
+	if len(h.handlers) == 0 {
+		verifCover("no-services")
+		verifAssert(status.Code(err) == codes.Unimplemented, "C11.forward-tunnel-unsupported-without-services")
+		return
+	}
+	verifAssert(err == nil, "C04.forward-serve-ends-cleanly-on-eof")
+	verifAssert(len(str.hdrs) == 1 && len(str.hdrs[0][grpctunnelNegotiateKey]) == 1 && str.hdrs[0][grpctunnelNegotiateKey][0] == grpctunnelNegotiateVal, "C11.fwd-acceptor-advertises-negotiation")
+	nsettings := 0
+	for _, f := range str.sent {
+		if s, ok := f.Frame.(*tunnelpb.ServerToClient_Settings); ok {
+			nsettings++
+			verifAssert(f.StreamId == -1, "C11+C13.fwd-settings-stream-id")
+			wantRevs := 2
+			if disable {
+				wantRevs = 1
+			}
+			verifAssert(len(s.Settings.SupportedProtocolRevisions) == wantRevs, "C11.fwd-settings-list-reflects-disable-option")
+		}
+	}
+	verifAssert(nsettings == boolToInt(wantNegotiate), "C11+C13.fwd-settings-iff-peer-negotiates")
+	if h.stopping.Load() {
+		verifCover("fwd-shutting-down")
+		verifAssert(len(hl.calls) == 0, "C10.initiate-shutdown-refuses-new-rpcs")
+		refused := false
+		for _, f := range str.sent {
+			if code, isClose := vCloseCode(f); isClose && f.StreamId == 1 {
+				refused = code == codes.Unavailable
+			}
+		}
+		verifAssert(refused, "C10.initiate-shutdown-refusal-is-unavailable")
+	} else {
+		verifAssert(len(hl.calls) == 1, "C08.fwd-rpc-dispatched")
+	}
+}
